@@ -1,5 +1,6 @@
 """C05 - proximal operators: exact closed form of the group-lasso step (piecewise canonical forms), feasibility and
 formula identity of the hierarchical step. Optimality of the breakpoint search is not decided."""
+from ..astutil import clone as _clone
 import ast
 from fractions import Fraction
 
@@ -195,9 +196,9 @@ def run(pm, ctx):
                         if isinstance(n.ctx, ast.Load) and n.id not in (nv, Wp, ap):
                             ds = list(rd.get(st, {}).get(n.id, ()))
                             if len(ds) == 1 and ds[0] is not ENTRY and isinstance(ds[0], ast.Assign) and depth < 5:
-                                return resolve_keep(copy.deepcopy(ds[0].value), ds[0], depth + 1)
+                                return resolve_keep(_clone(ds[0].value), ds[0], depth + 1)
                         return n
-                return ast.fix_missing_locations(R().visit(copy.deepcopy(expr)))
+                return ast.fix_missing_locations(R().visit(_clone(expr)))
             full = resolve_keep(rets[0].value, rets[0])
             n_, a_, W_ = Rat(Poly.atom(nv)), Rat(Poly.atom(ap)), Rat(Poly.atom(Wp))
             one = Rat(Poly.const(1))
